@@ -125,8 +125,14 @@ impl DatagramState {
             return Err(TransportError::PROTOCOL_VIOLATION("oversized datagram"));
         }
 
-        let was_empty = self.recv_buffered == 0;
         let cost = Self::recv_cost(&datagram.data);
+        if cost > window {
+            // Only possible for an empty datagram and a zero-sized receive buffer
+            debug!("dropping datagram that exceeds the receive buffer");
+            return Ok(false);
+        }
+
+        let was_empty = self.recv_buffered == 0;
         while cost + self.recv_buffered > window {
             debug!("dropping stale datagram");
             if self.recv().is_none() {
